@@ -1,6 +1,7 @@
 import OrdModel.Proofs.IndexSchedSeq
 import OrdModel.Proofs.IndexSchedValid
 import OrdModel.Proofs.IndexSchedRender
+import OrdModel.Proofs.IndexLiftInsChain
 /-!
 # C12 — index content does not depend on how indexing was scheduled
 
@@ -180,6 +181,50 @@ theorem c12_dumps_equal (cfg : Cfg) (sched₁ sched₂ : List (List Block))
         (c12_committed_tables_wf cfg sched₁ hc s₁ h1).1
         (c12_committed_tables_wf cfg sched₂ (hflat ▸ hc) s₂ h2).1 name
 
+/-! ## The full statement: `SeqConsistentRun` discharged
+
+C04's invariant is now proved for every reachable state of the abstract run
+(`Insloc.c04_reachable`, lemmas `Proofs/IndexLiftIns*.lean`) under `InsLift.InsChain` =
+`ChainCond` + every block starts with a coinbase (first input null) + block heights never
+decrease.  So `SeqConsistentRun` is a theorem and the C12 statements hold with chain hypotheses
+only. -/
+
+/-- `SeqConsistentRun` holds for every chain satisfying `InsChain`. -/
+theorem c12_seqConsistentRun_full (cfg : Cfg) (chain : List Block) (hc : InsLift.InsChain chain) :
+    SeqConsistentRun cfg chain {} :=
+  c12_seqConsistent_of_c04 cfg chain hc.cond (fun pre a hpre hr => by
+    obtain ⟨suf, rfl⟩ := hpre
+    obtain ⟨evs, hrun⟩ := InsLift.run_of_runBlocks cfg pre a hr
+    exact (InsLift.run_chainInv cfg pre a evs hc.ok.prefix hrun).1.part)
+
+/-- Every schedule refines the block-by-block run on the whole content (`Equiv`), chain
+hypotheses only. -/
+theorem c12_schedule_refines_blocks_full (cfg : Cfg) (sched : List (List Block))
+    (hc : InsLift.InsChain sched.flatten) :
+    OutRel (fun s a => Equiv s.st a ∧ s.cache = [])
+      (runBatches cfg sched {}) (runBlocks cfg sched.flatten {}) :=
+  c12_schedule_refines_blocks cfg sched hc.cond (c12_seqConsistentRun_full cfg _ hc)
+
+/-- **C12, full**: for every configuration, every chain with pairwise distinct non-zero txids,
+no special-outpoint spend outside a block's first transaction, coinbase-first blocks and
+non-decreasing heights, and every two ways of cutting it into commit batches, both runs end with
+the same panic / the same error, or both succeed with the same committed content (`Equiv`:
+`utxo`, `seq2sp`, `script2out` as finite maps / set, every other table, counter and statistic
+syntactically). -/
+theorem c12_schedule_independent_full (cfg : Cfg) (sched₁ sched₂ : List (List Block))
+    (hflat : sched₁.flatten = sched₂.flatten) (hc : InsLift.InsChain sched₁.flatten) :
+    OutRel (fun s₁ s₂ => Equiv s₁.st s₂.st ∧ s₁.cache = [] ∧ s₂.cache = [])
+      (runBatches cfg sched₁ {}) (runBatches cfg sched₂ {}) :=
+  c12_schedule_independent cfg sched₁ sched₂ hflat hc.cond (c12_seqConsistentRun_full cfg _ hc)
+
+/-- The canonical dump of the committed content is the same for any two schedules, chain
+hypotheses only. -/
+theorem c12_dumps_equal_full (cfg : Cfg) (sched₁ sched₂ : List (List Block))
+    (hflat : sched₁.flatten = sched₂.flatten) (hc : InsLift.InsChain sched₁.flatten) :
+    OutRel (fun s₁ s₂ => ∀ name, renderSection cfg s₁.st name = renderSection cfg s₂.st name)
+      (runBatches cfg sched₁ {}) (runBatches cfg sched₂ {}) :=
+  c12_dumps_equal cfg sched₁ sched₂ hflat hc.cond (c12_seqConsistentRun_full cfg _ hc)
+
 /-! ## Duplicate txids: schedule independence fails
 
 Blocks 0 and 1 have the same coinbase transaction (txid 7) and block 2 spends `7:0`.  If
@@ -269,5 +314,14 @@ example : ChainCond [[insB0], [insB1, insB2, insB3]].flatten ∧
 
 /-- the duplicate-txid chain is excluded by `ChainCond` (and only by its first clause) -/
 example : ¬ (chainTxids [dupB0, dupB1, dupB2]).Nodup := by decide
+
+/-- `InsChain` is satisfiable on the chain with an inscription created, moved and lost inside one
+commit batch (both schedules succeed, see above) -/
+example : InsLift.InsChain [[insB0], [insB1, insB2, insB3]].flatten := by
+  refine ⟨⟨by decide, by decide, by decide⟩, ?_, by decide⟩
+  intro b hb
+  simp only [List.flatten_cons, List.flatten_nil, List.cons_append, List.nil_append, List.append_nil,
+    List.mem_cons, List.not_mem_nil, or_false] at hb
+  rcases hb with rfl | rfl | rfl | rfl <;> exact ⟨_, _, rfl, by decide⟩
 
 end Ord.Index.Sched
